@@ -4,6 +4,7 @@
   System values alike) and, for the set functions, in the item equality `eq`.
 -/
 import FP.Model.Coll
+import FP.Model.Eval
 namespace FP.Props.C10
 open FP FP.Model
 
@@ -331,5 +332,62 @@ example : takeFn 2147483647 [1, 2, 3] ++ skipFn 2147483647 [1, 2, 3] = [1, 2, 3]
 example : takeFn (-2147483648) [1, 2, 3] = ([] : List Nat) := by decide
 example : distinctFn (fun (a b : Nat) => a == b) [1, 2, 1, 3, 2] = [1, 2, 3] := by decide
 example : intersectFn (fun (a b : Nat) => a == b) [1, 2, 2, 3] [2, 2, 4] = [2] := by decide
+
+/-! ### the same laws on whole expressions (the assembled evaluator, FP.Model.Eval):
+    for every criterion / argument expression, environment and input collection -/
+
+section Expr
+open FP.Model.Eval
+
+/-- `exists(p)` equals `where(p).exists()`, errors included -/
+theorem expr_exists_eq_where_exists (env : Env) (p : E) (input : List Val) :
+    eval env (.fn "exists" (.argCons p .argNil)) input
+      = eval env (.seq (.fn "where" (.argCons p .argNil)) (.fn "exists" .argNil)) input := by
+  simp [eval, apply1, apply0, existsFn]
+  cases whereFn (crit (eval env p)) input <;> simp [mapRes, Res.bind]
+
+/-- `first()` = `[0]` = `take(1)` -/
+theorem expr_first_index_take (env : Env) (input : List Val) :
+    eval env (.fn "first" .argNil) input = eval env (.index (.lit (.int 0))) input ∧
+    eval env (.fn "first" .argNil) input = eval env (.fn "take" (.argCons (.lit (.int 1)) .argNil)) input := by
+  refine ⟨?_, ?_⟩
+  · simp [eval, apply0, indexColl, Res.bind, first_eq_index0]
+  · cases input <;> simp [eval, apply0, apply1, toInt32, Res.bind, takeFn, firstFn]
+    intro h; exact List.eq_nil_of_length_eq_zero (by omega)
+
+/-- `tail()` = `skip(1)` -/
+theorem expr_tail_eq_skip1 (env : Env) (input : List Val) :
+    eval env (.fn "tail" .argNil) input = eval env (.fn "skip" (.argCons (.lit (.int 1)) .argNil)) input := by
+  cases input <;> simp [eval, apply0, apply1, toInt32, Res.bind, skipFn, tailFn]
+  intro h; exact List.eq_nil_of_length_eq_zero (by omega)
+
+/-- `take(n)` followed by `skip(n)` partitions the input, for every integer literal n -/
+theorem expr_take_skip_partition (env : Env) (n : Int) (input : List Val) :
+    ∃ a b, eval env (.fn "take" (.argCons (.lit (.int n)) .argNil)) input = .ok a ∧
+           eval env (.fn "skip" (.argCons (.lit (.int n)) .argNil)) input = .ok b ∧ a ++ b = input := by
+  cases input with
+  | nil => exact ⟨[], [], by simp [eval, apply1], by simp [eval, apply1], rfl⟩
+  | cons x xs =>
+    refine ⟨takeFn n (x :: xs), skipFn n (x :: xs), ?_, ?_, take_skip_partition n _⟩ <;>
+      simp [eval, apply1, toInt32, Res.bind]
+
+/-- a path is evaluated step by step: the second step sees exactly what the first produced -/
+theorem expr_seq (env : Env) (a b : E) (input mid : List Val) (h : eval env a input = .ok mid) :
+    eval env (.seq a b) input = eval env b mid := by
+  simp [eval, h, Res.bind]
+
+/-- `where(p)` keeps an item exactly when p — evaluated on that item alone, `$this` being the item —
+    is true, in order (for criteria that evaluate to at most one item on every input item) -/
+theorem expr_where_eq_filter (env : Env) (p : E) (input : List Val)
+    (h : Simple (crit (eval env p)) input) :
+    eval env (.fn "where" (.argCons p .argNil)) input
+      = .ok (input.filter (truthy (crit (eval env p)))) := by
+  simp [eval, apply1]
+  exact where_eq_filter _ _ h
+
+/-- `$this` inside a criterion is the item under test -/
+theorem expr_this_is_the_item (env : Env) (x : Val) : eval env .this [x] = .ok [x] := rfl
+
+end Expr
 
 end FP.Props.C10
